@@ -244,5 +244,8 @@ def check(ctx):
     async_assembly_model(ctx.borrowed("R4", "C01"), repo)
     ctx.rule("R5", "a transient network error does not end the watch: the endpoint, built by its own constructor and interpreted on a model transport, is still open and its connection-lost future unresolved after error_received(exc) (the operating system reports ICMP / route errors there while the spa is away; the ping loop runs only `while isopen` and exits without an event otherwise), and the call does not raise; positive control: disconnect() closes it and resolves the future")
     endpoint_survives_errors(ctx, repo, "R5")
+    ctx.rule("R6", "the watch survives its neighbours' timeouts: the ping loop sleeps in config_sleep on a future shared with every other sleeper; that wait must not be able to cancel the shared future (asyncio.wait, or wait_for on a shield) - otherwise the first timeout of any sleeper ends the ping loop with CancelledError and an unreachable spa is never reported (C17's sleeper model borrowed)")
+    from .c17 import sleeper_model
+    sleeper_model(ctx.borrowed("R6", "C17", key_contains="leaves-the-shared-future-alone"), repo, "R3")
     ctx.note("NOT decided (the headline of the property): that recovery happens, within what time, after which fault scripts; that the facade's values mirror the spa afterwards. States that are terminal by design (CONNECTING after 'cannot find spa pack') are not flagged.")
     ctx.assume("a ping loop exists in the states named by the ping-received row (a connection was established before the error)")
